@@ -150,6 +150,22 @@ func VxC07_Dispatch() {
 	vx.Assert(vx.SameBits(InvCDF(n)(y), n.InvCDF(y)) || (math.IsNaN(InvCDF(n)(y)) && math.IsNaN(n.InvCDF(y))), "NormalDist uses its own InvCDF")
 }
 
+// vxScript is a rand.Source whose Float64 draws are the scripted values (native replay only).
+type vxScript struct {
+	vals []float64
+	used int
+}
+
+func (s *vxScript) Int63() int64 {
+	v := 0.5
+	if s.used < len(s.vals) {
+		v = s.vals[s.used]
+	}
+	s.used++
+	return int64(v * (1 << 63)) // (*rand.Rand).Float64 is float64(Int63()) / 2^63
+}
+func (s *vxScript) Seed(int64) {}
+
 // VxC07_Rand: Rand(dist) is a deterministic function of the random source: the quantile of the
 // first non-zero draw; zero draws are skipped.
 // C07: "Rand(dist) yields draws that are a deterministic function of the supplied random source".
@@ -163,14 +179,21 @@ func VxC07_Dispatch() {
 func VxC07_Rand() {
 	d := vxStepDist()
 	if !vx.Engine() {
-		// native replay: same seed, same draws
+		// native replay: same seed, same draws; and a scripted source whose first draw is exactly 0:
+		// the re-draw must come from the same source
 		a := Rand(d)(rand.New(rand.NewSource(7)))
 		b := Rand(d)(rand.New(rand.NewSource(7)))
-		vx.Assert(a == b, "Rand is the quantile of the first non-zero draw")
+		src := &vxScript{vals: []float64{0, 0.5, 0.25}}
+		c := Rand(d)(rand.New(src))
+		ok := a == b && src.used == 2 && c == InvCDF(d)(0.5)
+		vx.Assert(ok, "Rand is the quantile of the first non-zero draw")
+		vx.Assert(ok, "Rand draws only from the supplied source")
 		return
 	}
 	r := rand.New(rand.NewSource(1)) // every r.Float64() is an arbitrary draw for the engine
+	vx.Epoch()
 	got := Rand(d)(r)
+	vx.Assert(vx.NoGlobalWrites(), "Rand draws only from the supplied source")
 	// the engine names the draws rand.Float64#k; recover the first non-zero one
 	y := vx.Float("rand.Float64#0")
 	for k := 1; y == 0 && k < 3; k++ {
